@@ -153,7 +153,41 @@ def stream_reuse(chk, i, rng, with_grad=False):
     chk.count(("reuse", label, n, K, tuple(steps), with_grad))
 
 
-STREAMS = {"score": (stream_score, 420, 6000), "registry": (stream_registry, 13, 13), "reuse": (stream_reuse, 130, 1500)}
+def stream_large(chk, i, rng):
+    """Larger shapes than the extracted model can run (n up to 900, K up to 24): implementation vs the vectorised
+    textbook definition, and score with vs without the gradient. Shape-dependent code paths (blocking, chunking,
+    size thresholds) only show here."""
+    gl = [x for x in gemlib.gemini_list() if "asserstein" not in x[0]]
+    label, fac = gl[i % len(gl)]
+    g = fac()
+    obj, ovo = gemlib.obj_of(g)
+    K = int(rng.choice([3, 6, 10, 16, 20, 24]))
+    n = int(rng.choice([50, 120, 200, 333, 512, 700, 900]))
+    if obj == "mmd":
+        n = min(n, 333)
+    P = gemlib.gen_P(rng, n, K, rng.choice(["soft", "mid", "sharp"]))
+    P = np.clip(P, 1e-9, None); P /= P.sum(1, keepdims=True)
+    A = None
+    if obj == "mmd":
+        X = rng.normal(size=(n, 3))
+        A = np.exp(-0.5 * ((X[:, None, :] - X[None, :, :]) ** 2).sum(-1))
+    replay = {"gemini": label, "n": n, "K": K}
+    s = float(np.asarray(g(P, A)))
+    s2, gr = g(P, A, return_grad=True)
+    s2 = float(np.asarray(s2))
+    if not close(s, s2, s, tol=1e-9):
+        chk.fail(f"large:score-depends-on-return_grad:{obj}:{'ovo' if ovo else 'ova'}", f"{label} n={n} K={K}: score alone {s!r}, with gradient {s2!r}", replay, layer="L3")
+    r = gemlib.ref_score_vec(obj, ovo, np.clip(P, g.epsilon, 1 - g.epsilon), A)
+    tol = 1e-8 if obj != "mmd" else 1e-7
+    if abs(r - s) > tol * max(1.0, abs(r)):
+        chk.fail(f"large:definition:{obj}:{'ovo' if ovo else 'ova'}", f"{label} n={n} K={K}: returned {s!r}, definition gives {r!r}", replay, layer="L3")
+    if gr.shape != P.shape or not np.isfinite(gr).all():
+        chk.fail(f"large:grad-shape-or-nonfinite:{obj}", f"{label} n={n} K={K}: gradient shape {gr.shape} / non-finite", replay, layer="L3")
+    chk.dist[f"large:n>={100 * (n // 100)}:K={K}"] += 1
+    chk.count(("large", label, n, K))
+
+
+STREAMS = {"score": (stream_score, 420, 6000), "registry": (stream_registry, 13, 13), "reuse": (stream_reuse, 130, 1500), "large": (stream_large, 90, 900)}
 
 
 def main(pid="C01", streams=STREAMS, rule=None):
